@@ -29,14 +29,90 @@ NOT_APPLICABLE = {
            "(C05/C07 invariants, error states return to CONNECTING) are decided under those properties",
 }
 
+ENV_TRUSTED = [
+    "environment model of the transport: recv_fp/send_fp return an error code < 0 or move 1..len bytes (never 0)",
+    "lrtr_dbg has no effect on library state; pthread cancellation is not modelled",
+]
 PROPS = {
+    "C04": {
+        "level": "other",
+        "explanation": "Memory-safety, assertion, shift and overflow obligations plus postconditions of the receive path for ALL byte "
+                       "contents: rtr_receive_pdu is verified against its contract for every content of the 3248-byte buffer, every "
+                       "outcome of the transport reads and every socket version (complete, loop-free); tr_recv_all/tr_send_all for every "
+                       "chunking by inductive loop contracts (unbounded); rtr_handle_error_pdu, the bit extractors and trie_lookup under "
+                       "hostile-free but arbitrary field values. Level 'other': the consumers of a decoded prefix PDU "
+                       "(rtr_sync_receive_and_store_pdus and the trie mutators under hostile length fields) are not yet under contract.",
+        "note": "Reception is modelled zero-copy (bytes received = arbitrary prior content of the buffer). IPv6 trie path units run in the thorough tier only.",
+        "trusted": ENV_TRUSTED + ["libc snprintf (assumed contract verif_fmt)"],
+        "assumptions": ["a transport never returns 0 from recv/send (tcp and ssh transports map 0 to TR_CLOSED)"],
+    },
+    "C05": {
+        "level": "other",
+        "explanation": "Inductive invariant of the real rtr_fsm_start loop (base + step discharged): whenever no session is requested the "
+                       "socket holds the session/serial of the last completed synchronisation; every Serial Query is asserted to carry "
+                       "exactly them, every Reset Query to be sent exactly when no session is held; rtr_sync is verified against the "
+                       "socket-level contract the state machine assumes (foreign-session Cache Response: refused, payload never "
+                       "processed); query encodings are checked byte by byte; rtr_init/rtr_stop/purge establish 'request a session'. "
+                       "Level 'other': the frame contract of rtr_sync_receive_and_store_pdus (serial = End-of-Data serial, session "
+                       "untouched) is assumed, not yet proved on its body.",
+        "trusted": ENV_TRUSTED,
+        "assumptions": ["single-threaded reading of the socket (rtr_stop running concurrently is not modelled)",
+                        "frame contract of rtr_sync_receive_and_store_pdus (contracts/sync.h) is assumed"],
+    },
+    "C07": {
+        "level": "other",
+        "explanation": "Second conjunct of the same loop invariant: a socket without time stamp holds no records and requests a session; at "
+                       "every tr_open the stub asserts that no data is older than the expire interval; rtr_purge_outdated_records and "
+                       "rtr_stop are verified against 'both tables purged for exactly this socket, fall back to Reset Query'; "
+                       "rtr_handle_cache_response_pdu keeps the time stamp when a reload starts. Level 'other': the table purges are "
+                       "the C02/C10 contracts in client reading (ghost), and 'a failed synchronisation never leaves more records' is "
+                       "taken from the C03 contract.",
+        "trusted": ENV_TRUSTED,
+        "assumptions": ["the monotonic clock does not fail, does not run backwards and stays below 2^40 s (units fsm); purge itself is verified with a failing clock",
+                        "no allocation failure while purging", "records of other sockets: covered by the src_remove contracts (C02/C10), not here"],
+    },
+    "C13": {
+        "level": "other",
+        "explanation": "rtr_receive_pdu (all inputs): the version is never raised, lowered only by a first PDU of a lower supported version "
+                       "that is not an Error Report; every other foreign version is refused before its payload is read and answered with "
+                       "an Unexpected-Protocol-Version report whose bytes are checked; End of Data accepted only as v0/12 or v1/24 bytes. "
+                       "rtr_handle_error_pdu (all inputs): downgrade only for code 4 with a lower supported version, then FAST_RECONNECT. "
+                       "rtr_sync (loop contract): hang-up downgrade only without session, one step, FAST_RECONNECT. State machine "
+                       "invariant: version <= 1, first-PDU flag cleared at every connect. Level 'other' because "
+                       "rtr_sync_receive_and_store_pdus is represented by an assumed frame contract.",
+        "trusted": ENV_TRUSTED,
+        "assumptions": ["frame contract of rtr_sync_receive_and_store_pdus is assumed"],
+    },
+    "C14": {
+        "level": "other",
+        "explanation": "Every send function is verified with the real conversion/assembly code inlined and the transport replaced by a "
+                       "logging stub: Serial/Reset Query bytes equal the RFC 8210 encoding; Error Reports built by "
+                       "rtr_send_error_pdu_from_host for every offender size a call site uses (0, 8, 12, 20, 24, 32, 123 bytes) are "
+                       "well-formed (version, type, code, length = bytes sent <= 3248, nested lengths) and their encapsulated PDU is "
+                       "byte for byte the offender AS RECEIVED (decode by the receive path, re-encode by the sender = identity); the "
+                       "reports of rtr_receive_pdu echo the raw header; tr_send_all completes partial writes (loop contract). "
+                       "Level 'other': call sites inside rtr_sync_receive_and_store_pdus are not yet checked against the sender's "
+                       "precondition; 'no byte from uninitialised memory' is not decided.",
+        "trusted": ENV_TRUSTED + ["libc snprintf (assumed contract verif_fmt), memcpy/strlen as modelled by CBMC"],
+        "assumptions": [],
+    },
+    "C17": {
+        "level": "other",
+        "explanation": "rtr_check_interval_range, apply_interval_value, rtr_check_interval_option: for all 2^32 values x modes x kinds the "
+                       "interval afterwards equals SPEC_INTERVAL (RFC 8210 section 6 ranges), other intervals untouched; rtr_init: "
+                       "INVALID_PARAM iff some interval is outside its range; rtr_wait_for_sync: time-out = max(0, last_update + "
+                       "refresh - now), success iff Serial Notify or time-out. All complete (loop-free). Level 'other': the call sites "
+                       "in rtr_sync_receive_and_store_pdus (End of Data handling, version 0 exchanges) are not yet under contract.",
+        "trusted": ENV_TRUSTED,
+        "assumptions": [],
+    },
     "C20": {
         "level": "proof",
         "explanation": "rtr_state_to_str and rtr_mgr_status_to_str are verified against the contract "
                        "'declared enumerator -> its name as spelled in the public header (table regenerated from "
                        "rtr.h / rtr_mgr.h on each run), anything else -> NULL, no access outside the table' for all "
                        "2^32 argument values (loop-free functions, complete).",
-        "trusted": [],
+        "trusted": ["static name table socket_str_states keeps its initialiser (syntactic never-written check on every run)"],
         "assumptions": [],
     },
 }
@@ -142,6 +218,15 @@ UNITS = [
     U(id="error_report_123_49", props=["C14"], file="units/send.c", entry="h_error_report",
       defines=["H_ENTRY=h_error_report", "ENC=123", "TXT=49"], enforce=["rtr_send_error_pdu_from_host"], kind="complete",
       native=None, link=PKT_LINK, stubs=PKT_STUBS),
+    U(id="wait_for_sync", props=["C17", "C13"], file="units/wait.c", entry="h_wait", enforce=["rtr_wait_for_sync"],
+      replace=["rtr_receive_pdu/rtr_receive_pdu__wait"], kind="complete", native=None, link=PKT_LINK,
+      stubs=PKT_STUBS + ["lrtr_get_monotonic_time"]),
+    U(id="purge", props=["C07", "C05"], file="units/purge_stop.c", entry="h_purge", defines=["H_ENTRY=h_purge"],
+      enforce=["rtr_purge_outdated_records"], kind="complete", native=None,
+      stubs=["pfx_table_src_remove", "spki_table_src_remove", "lrtr_get_monotonic_time", "rtr_change_socket_state", "tr_close", "pthread_cancel", "pthread_join", "lrtr_dbg"]),
+    U(id="stop", props=["C07", "C05"], file="units/purge_stop.c", entry="h_stop", defines=["H_ENTRY=h_stop"],
+      enforce=["rtr_stop"], kind="complete", native=None,
+      stubs=["pfx_table_src_remove", "spki_table_src_remove", "lrtr_get_monotonic_time", "rtr_change_socket_state", "tr_close", "pthread_cancel", "pthread_join", "lrtr_dbg"]),
     # ------------------------------------------------------------------ receive path (C04, C13, C14)
     U(id="receive_pdu", props=["C04", "C13", "C14"], file="units/receive.c", entry="h_receive_pdu",
       enforce=["rtr_receive_pdu"], kind="complete", native=None, timeout=1800, link=PKT_LINK, replace=["verif_fmt"],
@@ -186,7 +271,7 @@ UNITS = [
       enforce=["trie_lookup"], stubs=["lrtr_ip_addr_get_bits", "lrtr_ip_addr_is_zero", "lrtr_ip_addr_equal"],
       loops=[LOOKUP_LOOP], kind="unbounded", need_classes=["postcondition", "loop_invariant_step"],
       native={}, timeout=1200, object_bits=6),
-    U(id="trie_lookup_v6s", props=["C01", "C04"], file="units/trie_lookup.c", entry="h_trie_lookup", defines=["FAM6", "SPINE_N=33", "STUB_IP"],
+    U(id="trie_lookup_v6s", props=["C01", "C04"], file="units/trie_lookup.c", entry="h_trie_lookup", defines=["FAM6", "SPINE_N=33", "STUB_IP"], tier="thorough",
       enforce=["trie_lookup"], stubs=["lrtr_ip_addr_get_bits", "lrtr_ip_addr_is_zero", "lrtr_ip_addr_equal"],
       loops=[LOOKUP_LOOP], kind="bounded: IPv6 paths of at most 33 nodes (full depth 129 in the thorough tier)", need_classes=["postcondition", "loop_invariant_step"],
       native={}, timeout=2400, object_bits=7),
